@@ -14,7 +14,7 @@ DISTINCT_RULE = (
     "strategy's received sequence with the uninjected run; distinct = (differential shape) and (callback kind, injected strategy position) cells"
 )
 RULES = ["differential", "injection", "mw-before-strategies", "live-callbacks"]
-MINIMA = {"quick": {"rule_differential": 500, "rule_injection": 500, "rule_live-callbacks": 100}, "thorough": {"rule_differential": 15000}}
+MINIMA = {"quick": {"rule_differential": 500, "rule_injection": 500, "rule_live-callbacks": 100}, "thorough": {"rule_differential": 10000}}
 ASSUMPTIONS = [
     "ledger = per order (market, runner, side, type, price, size, status path, fragments, buckets, timestamps, profit), ids replaced by ordinals",
     "process_closed_market is not in the property's list of protected callbacks and is not injected",
@@ -136,10 +136,30 @@ def run_inject(desc, out):
         return
     recv0 = {s.name: list(s.received) for s in base.strategies}
     audit0 = [(c["kind"], c["market"], str(c.get("pt"))) for c in base.callbacks]
-    target = rng.choice(("A", "B", "middleware"))
+    target = rng.choice(("A", "B", "middleware", "A", "B"))
     c2 = copy.deepcopy(case)
     kind = None
-    if target == "middleware":
+    in_tx = target != "middleware" and rng.random() < 0.35
+    if in_tx:
+        # the exception is raised in the middle of a callback, inside a `with market.transaction()` block after
+        # some requests were accepted
+        st_ = next(s for s in c2["strategies"] if s["name"] == target)
+        by_step = {}
+        for a in st_["actions"]:
+            by_step.setdefault((a["m"], a["at"]), []).append(a)
+        if not by_step:
+            return
+        key = rng.choice(sorted(by_step))
+        acts = []
+        for k2, items in by_step.items():
+            if k2 == key:
+                acts.append({"m": k2[0], "at": k2[1], "op": "batch", "items": items, "execute_after": [], "raise_after": rng.randrange(len(items))})
+            else:
+                acts += items
+        acts.sort(key=lambda a: a["at"])
+        st_["actions"] = acts
+        kind = "in_tx"
+    elif target == "middleware":
         n_inv = len(base.updates)
         at = rng.randrange(max(1, n_inv))
 
@@ -203,6 +223,11 @@ def run_inject(desc, out):
     for v in tr.online:
         if v["property"] in ("C10", "C15"):
             out.v("state-inconsistent-after-contained-exception", dict(tags, rule=v["rule"]), inner=v)
+    # accepted requests are still sent exactly once and nothing stays queued (C02's checker on this trace)
+    o2 = O.Out("C02")
+    O.c02_requests(tr, o2, "Betfair", "Simulated")
+    for v in o2.violations:
+        out.v("state-inconsistent-after-contained-exception", dict(tags, rule=v["rule"]), inner=v)
 
 
 def run_live(desc, out):
